@@ -1,7 +1,7 @@
 SPECIFICATION Spec
 CONSTANTS
   KeySeq <- KeySeq3
-  Vals <- Vals2
+  Vals <- ValsL
   Acts <- ActsC04
   MaxOps = 5
   DiskInits <- DiskAll3
